@@ -63,10 +63,13 @@ fn main() {
         "C04" | "C11" => props::c04::main(&ctx),
         "C05" => props::c05::main(&ctx),
         "C06" | "C12" => props::c06::main(&ctx),
+        "C07" => props::c07::main(&ctx),
+        "C08" => props::c08::main(&ctx),
         "C09" => props::c10::main(&ctx, true),
         "C10" => props::c10::main(&ctx, false),
         "C14" => props::c14::main(&ctx),
         "C15" => props::c15::main(&ctx),
+        "C16" => props::c16::main(&ctx),
         "C18" => props::c18::main(&ctx),
         _ => {
             eprintln!("unknown property {prop}");
